@@ -30,7 +30,7 @@ func c14Dims(wide bool) []c14Dim {
 	}
 	bodies := pick(
 		[]int{0, 1, 1000, 16384, 16385, 65535, 65536, 70001},
-		[]int{0, 1, 1000, 16384, 16385, 65535, 65536, 70001, 16383, 4096, 140001})
+		[]int{0, 1, 1000, 16384, 16385, 65535, 65536, 70001, 16383, 4095, 4096, 4097, 140001})
 	hdrs := pick([]int{0, 1, 2, 3, 4, 5, 6}, []int{0, 1, 2, 3, 4, 5, 6, 7, 8})
 	methods := []string{"POST", "GET", "HEAD"}
 	if wide {
@@ -65,6 +65,7 @@ func c14Dims(wide bool) []c14Dim {
 		c14DimOf("res_flush", []bool{false, true}, func(x *c14Case, v bool) { x.ResFlush = v }),
 		c14DimOf("res_trl", []int{0, 1, 20, -1}, func(x *c14Case, v int) { x.ResTrl = v }),
 		c14DimOf("order", []int{0, 1}, func(x *c14Case, v int) { x.Order = v }),
+		c14DimOf("repeat", pick([]int{1, 2}, []int{1, 2, 3}), func(x *c14Case, v int) { x.Repeat = v }),
 	}
 }
 
